@@ -252,7 +252,8 @@ func (p *P) Run(src *tape.Source, trace bool) *core.Result {
 
 	// ---- oracle 4: progress
 	if s.Deadlock {
-		r.Fail("progress", "deadlock", "all unfinished tasks are blocked on simulated locks "+ctx)
+		r.Fail("progress", "deadlock", "all unfinished tasks are blocked on locks (e.g. a read lock taken recursively with a writer arriving in between) "+ctx)
+		r.Poisoned = true
 		return r
 	}
 	if s.Capped {
